@@ -85,6 +85,9 @@ Record det_obs := mkDO {
 
 Record fcase := mkFC {
   fc_m : fmesh;
+  fc_geo : option (list (Z * Z * Z) * list (list Z));  (* integer vertex coordinates and faces, when the normals are the
+                                                         computed ones: the flagged set is then also compared with the
+                                                         geometric classification of FeatGeo.v *)
   fc_normals : list (Z * Z * Z * Z * Z * Z);  (* the normals the runs used: (m,e) per component *)
   fc_angle : list (Z * Z);                    (* the angle sums they used: (m,e) *)
   fc_dets : list det_obs
@@ -118,5 +121,21 @@ Definition det_agree (m : fmesh) (d : det_obs) : bool :=
      | Some l => o_flag_corners o && same_set_z (map fst l) (do_fv d) && forallb (corner_ok m d) l
      end.
 
+Definition the_gmesh (c : fcase) (cf : list (Z * Z * Z) * list (list Z)) : gmesh :=
+  let m := fc_m c in
+  mkG (map (fun p => let '(x, y, z) := p in (inject_Z x, inject_Z y, inject_Z z)) (fst cf)) (snd cf)
+      (Z.of_nat (length (f_edges m))) (f_e2f m) (f_bedges m) (f_hard m).
+
+(* implementation's flagged set against the classification on the mesh geometry, through the band *)
+Definition geo_agree (c : fcase) (d : det_obs) : bool :=
+  match fc_geo c with
+  | None => true
+  | Some cf =>
+      let g := the_gmesh c cf in
+      let ob := o_only_border (do_opts d) in
+      subset_z (geo_feature_edges (- do_eps d)%Q g ob) (do_fe d)
+      && subset_z (do_fe d) (geo_feature_edges (do_eps d) g ob)
+  end.
+
 Definition check_feat (c : fcase) : bool :=
-  let m := the_mesh c in wf_f m && forallb (det_agree m) (fc_dets c).
+  let m := the_mesh c in wf_f m && forallb (det_agree m) (fc_dets c) && forallb (geo_agree c) (fc_dets c).
